@@ -6,11 +6,6 @@ From AhrsProps Require Import C20_spec.
 Import ListNotations.
 Open Scope R_scope.
 
-(* what QuaternionArray.to_angles returns for one row: roll, pitch, yaw *)
-Definition rpy_of (q : list R) : list R :=
-  let w := e q 0 in let x := e q 1 in let y := e q 2 in let z := e q 3 in
-  [atan2 (2 * (w*x + y*z)) (1 - 2 * (x*x + y*y)); asin (2 * (w*y - z*x)); atan2 (2 * (w*z + x*y)) (1 - 2 * (y*y + z*z))].
-
 Section Given.
 Variables q0w q0x q0y q0z q1w q1x q1y q1z q2w q2x q2y q2z : R.
 Hypothesis U0 : unit4 q0w q0x q0y q0z.
